@@ -12,7 +12,7 @@ Definition uent_of (st : state) (home : nat -> nat) (v : nat) : uent :=
 Definition frame_of (st : state) (home : nat -> nat) (s : nat) : frame :=
   let sc := sc_of st s in
   mkF s (opt_nat_eqb (sfunc sc) s) (map (nk st) (sdeclared sc)) (map (uent_of st home) (sundeclared sc))
-      (Z.to_nat (narguses sc)).
+      (Z.to_nat (narguses sc)) (Z.to_nat (nfordecls sc)).
 
 Definition lab_root (st : state) (home : nat -> nat) (r : nat) : label :=
   if vdecl (vget st r) =? 0 then LPend (home r) (vname (vget st r)) else LDecl (home r) (vname (vget st r)).
@@ -66,7 +66,8 @@ Record InvS (st : state) (log stk : list nat) (home : nat -> nat) (extra : nat -
   I_pend_complete : forall r, (r < nvars st)%nat -> is_root st r -> vd st r = 0 ->
           (In (home r) stk /\ In r (sundeclared (sc_of st (home r)))) \/ extra r ;
   I_marks : forall s, In s stk ->
-          nfordecls (sc_of st s) = 0 /\ 0 <= narguses (sc_of st s) <= len (sundeclared (sc_of st s))
+          0 <= nfordecls (sc_of st s) <= len (sdeclared (sc_of st s))
+          /\ 0 <= narguses (sc_of st s) <= len (sundeclared (sc_of st s))
 }.
 
 Record InvU (st : state) (log : list nat) : Prop := {
@@ -248,9 +249,26 @@ Proof.
   unfold a_find_decl, frame_of. cbn [fdecl]. rewrite <- map_rev. rewrite find_map. reflexivity.
 Qed.
 
-Lemma find_declared_nofor st sc x b : nfordecls sc = 0 ->
-  find_declared st sc x b = find (fun v => vname (vget st v) =? x) (rev (sdeclared sc)).
-Proof. intros H. unfold find_declared. rewrite H. destruct b; reflexivity. Qed.
+Lemma find_declared_noskip st sc x :
+  find_declared st sc x false = find (fun v => vname (vget st v) =? x) (rev (sdeclared sc)).
+Proof. reflexivity. Qed.
+
+(* Declare's search skips the loop-head declarations; it is the plain search unless one of them has the name *)
+Lemma find_declared_skip st sc x :
+  existsb (fun v => vname (vget st v) =? x) (firstn (Z.to_nat (nfordecls sc)) (sdeclared sc)) = false ->
+  find_declared st sc x true = find (fun v => vname (vget st v) =? x) (rev (sdeclared sc)).
+Proof.
+  intros H. unfold find_declared.
+  rewrite <- (firstn_skipn (Z.to_nat (nfordecls sc)) (sdeclared sc)) at 2. rewrite rev_app_distr.
+  set (g := fun v => vname (vget st v) =? x) in *.
+  generalize (rev (skipn (Z.to_nat (nfordecls sc)) (sdeclared sc))). intros l.
+  induction l as [|a t IH]; cbn [app find].
+  - assert (Hn : forall l0, existsb g l0 = false -> find g (rev l0) = None).
+    { intros l0 H0. destruct (find g (rev l0)) eqn:E; [|reflexivity]. apply find_some in E. destruct E as [E1 E2].
+      apply in_rev in E1. assert (existsb g l0 = true) by (apply existsb_exists; exists n; split; assumption). congruence. }
+    symmetry. apply Hn. exact H.
+  - destruct (g a); [reflexivity|exact IH].
+Qed.
 
 Lemma uname_uent_of st home v : uname (uent_of st home v) = vname (vget st v).
 Proof. unfold uent_of. destruct (vdecl (vget st v) =? 0); reflexivity. Qed.
